@@ -35,7 +35,7 @@ REQUIRE = {"doers_judged": 10000, "path:completion": 200, "path:limit": 200, "pa
 
 def cases(tier, seed, shard, nshards):
     rng = random.Random(f"{seed}:C01:{shard}")
-    n = (4000 if tier == "quick" else 150000) // nshards
+    n = (4000 if tier == "quick" else 80000) // nshards
     for i in range(n):
         path = faults.PATHS[i % len(faults.PATHS)]
         yield faults.make_case(rng, path)
